@@ -82,12 +82,20 @@ class Builder:
 
     def spec(self, fname):
         path = os.path.join(VERIF, 'units', self.uid, fname)
-        return Spec(open(path).read())
+        return Spec(self.subst(open(path).read()))
+
+    def subst(self, text):
+        """S("literal") in unit-owned text -> the opaque id of that literal in this run's string table"""
+        tab = self.profile.literal_ids
+        if tab is None:
+            return text
+        return re.sub(r'\bS\("((?:[^"\\]|\\.)*)"\)', lambda m: '(%s)' % tab.cexpr(m.group(1)), text)
 
     def lower(self, tgt, spec=None, contract_only=False, keep_markers=False):
         """lowered C text of the real function with the unit's contract spliced in"""
         d = astx.find_function(tgt.src, tgt.filt, tgt.name, tgt.nparams, tgt.sig, tgt.extra_flags, tgt.parent)
         lw = tgt.lowerer_cls(d, tgt.cname, self.profile, this_type=tgt.this)
+        lw.source_files = [tgt.src] + list(getattr(tgt, 'more_sources', []))
         try:
             text = lw.lower(tgt.extra_params)
         except Unsupported as e:
